@@ -72,6 +72,21 @@ PROPS = {
         "not_covered": ["returns a proof exactly when every row identity holds (A2)", "compute_sigma_permutations (A3)",
                         "never panics (quotient split, see DESIGN §6.1)"],
     },
+    "C08": {
+        "v_units": ["composer_base.py", "composer_bits_select.py"],
+        "claim": "code contracts (CANON model, all field values, all selector tuples): the Constraint builder, append_gate, "
+                 "append_evaluated_output (all three q_O paths: exactly one row, output witness c with q_O*c + x = 0 mod r, None iff q_O = 0), "
+                 "gate_add/gate_mul (returned witness == x), assert_equal, assert_equal_constant, append_constant, append_public, "
+                 "component_boolean, component_select/_one/_zero push exactly the documented coefficient tuples and honest witness values.",
+        "technique": "contract-based deductive verification: Verus on the real functions annotated in place (overlay)",
+        "level_note": "Assumed leaves: Composer::{append_witness_internal, append_custom_gate_internal, constraints, Index<Witness>} "
+                      "(hashbrown map inside), BlsScalar field axioms (CANON), two Runtime::event cuts. "
+                      "The row-level iff lemmas (row_sat <=> relation) are a separate obligation group.",
+        "design_ref": "DESIGN.md §4 C08",
+        "assumptions": A_VERUS + ["CANON model of BlsScalar (specs/verus/field.rs): cv in [0,r), + - * neg mod r, From<u64>, ==, invert"],
+        "trusted": T_VERUS,
+        "not_covered": [],
+    },
     "C15": {
         "v_units": ["capacity.py"],
         "claim": "capacity arithmetic of the compressed route: Compiler::max_constraints, CommitKey::{max_degree,truncate}, "
